@@ -35,6 +35,8 @@ pub struct Case {
     pub cfg: Config,
     /// the same configuration rendered as configuration-file text and read back by the subject's parse_config
     pub subject_cfg: Config,
+    /// plugin names in configuration order
+    pub plugins: Vec<&'static str>,
     pub tags: Vec<String>,
 }
 
@@ -57,6 +59,13 @@ pub fn gen_case(c: &mut Chooser) -> Case {
     let mut scalars = builtin_scalars();
     let mut cfg = pipeline::default_config();
     let four = |s: &str| [s.to_string(), s.to_string(), s.to_string(), s.to_string()];
+    // scalars that structural additions of the base generator bring along
+    for f in &files {
+        for d in f.defs.iter().filter(|d| d.kind == TsKind::Scalar && !d.ext && !["Version", "Int", "Float", "String", "Boolean", "ID"].contains(&d.name_str())) {
+            cfg.generate.r#type.scalar_types.insert(d.name_str().to_string(), ScalarTypeConfig::Single("string".into()));
+            scalars.insert(d.name_str().to_string(), four("string"));
+        }
+    }
     // the base schema's `scalar Version`
     match c.choose("scalar.Version", 5) {
         0 => {
@@ -205,8 +214,27 @@ pub fn gen_case(c: &mut Chooser) -> Case {
             Some(m)
         }
     };
+    // the plugin list: the model plugin alone, or together with a plugin that has nothing to say about
+    // this schema, in either order
+    let plugins: Vec<&'static str> = if model.is_some() {
+        match c.choose("plugin.list", 3) {
+            0 => vec!["nitrogql:model-plugin"],
+            1 => {
+                tags.push("plugins:model,scalars".into());
+                vec!["nitrogql:model-plugin", "nitrogql:graphql-scalars-plugin"]
+            }
+            _ => {
+                tags.push("plugins:scalars,model".into());
+                vec!["nitrogql:graphql-scalars-plugin", "nitrogql:model-plugin"]
+            }
+        }
+    } else if c.flag("plugin.scalars-only") {
+        vec!["nitrogql:graphql-scalars-plugin"]
+    } else {
+        vec![]
+    };
     let subject_cfg = pipeline::via_config_text(&cfg);
-    Case { model, files, scalars, cfg, subject_cfg, tags }
+    Case { model, files, scalars, cfg, subject_cfg, plugins, tags }
 }
 
 fn add_field(files: &mut [TsDoc], ty: &str, name: &str, t: Ty) {
@@ -262,7 +290,7 @@ fn check_case(rep: &Reporter, case: &Case, texts: &[String], c: &Chooser, cnt: &
         let parsed = pipeline::parse_schema_files(texts).map_err(|f| format!("{:?}", f.diags))?;
         let doc = pipeline::resolve_and_check_schema(parsed).map_err(|f| format!("rejected: {:?}", f.diags.iter().map(|d| d.kind.clone()).collect::<Vec<_>>()))?;
         let s = pipeline::schema_dts(&doc, &case.subject_cfg).map_err(|e| format!("schema_dts: {e}"))?;
-        let r = pipeline::resolvers_dts_with(&doc, &case.subject_cfg, "./schema.js", case.model.is_some()).map_err(|e| format!("resolvers_dts: {e}"))?;
+        let r = pipeline::resolvers_dts_plugins(&doc, &case.subject_cfg, "./schema.js", &case.plugins).map_err(|e| format!("resolvers_dts: {e}"))?;
         Ok::<_, String>((s.buffer, r.buffer))
     });
     let (schema_text, resolvers_text) = match generated {
@@ -466,7 +494,7 @@ pub fn run(args: &RunArgs) -> i32 {
     let stats = explore(&ExploreCfg { max_dev: dev, threads: args.threads, budget: Duration::from_secs(budget) }, |c: &mut Chooser| {
         let case = gen_case(c);
         let texts: Vec<String> = case.files.iter().map(ts_text).collect();
-        let key = format!("{}|{:?}|{}|{}|{}", texts.join("\u{1}"), case.scalars, case.cfg.generate.r#type.allow_undefined_as_optional_input, case.cfg.generate.emit_schema_runtime, case.model.is_some());
+        let key = format!("{}|{:?}|{}|{}|{}|{:?}", texts.join("\u{1}"), case.scalars, case.cfg.generate.r#type.allow_undefined_as_optional_input, case.cfg.generate.emit_schema_runtime, case.model.is_some(), case.plugins);
         if !distinct.insert(fnv(key.as_bytes())) {
             return;
         }
